@@ -612,7 +612,7 @@ func runListingRule(p *core.Prog, r *core.Report, h *core.RuleH) {
 
 func runC06(p *core.Prog, r *core.Report) {
 	r.Explain = "Decides only the status clause and the structural half of 'exactly once': (R1) the listing loop appends an address only after containerMarkedGC==false and inGarbage(that id)==statusAvailable; (R2) nothing else in the metabase builds listing results (all appends to []AddressWithAttributes are in selectNFromBucket's loop); (R3) the cursor is advanced to every visited object before any skip (so a skipped object is not revisited), the next page starts strictly after the cursor object (the equal key is stepped over), and the per-container reset of the object cursor happens only when the container changes. (R4) the engine asks every shard from the same cursor position and merges every non-empty page (the only ways around the merge are a failed shard and an empty page). Not covered: exactly-once across pages and shards as a property of key order (cursor arithmetic over key values), which is behavioural."
-	r1 := r.Rule("C06.R1", "listing appends only objects of live containers that are not marked for removal", 2)
+	r1 := r.Rule("C06.R1", "listing appends only objects of live containers that are not marked for removal", 1)
 	runListingRule(p, r, r1)
 	r2 := r.Rule("C06.R2", "listing results are built only in selectNFromBucket", 1)
 	n := 0
@@ -708,6 +708,14 @@ func runC06(p *core.Prog, r *core.Report) {
 		r.Fatalf("C06.R5: DB.InhumeContainer's transaction not found")
 	}
 	r.Explain += " (R5) DB.InhumeContainer's transaction reports success only after it has written the container's removal mark, whether or not the shard already holds something of that container: a removal that is not remembered lets objects that arrive later be indexed and listed."
+	// ---------------- R6 a container's removal reaches every shard
+	r6 := r.Rule("C06.R6", "StorageEngine.InhumeContainer offers the removal to every shard: the walk over the shards is not left because one of them refused (a read-only or failing shard must not keep the healthy ones behind it from learning that the container is gone)", 1)
+	if ic := p.Func("(*pkg/local_object_storage/engine.StorageEngine).InhumeContainer"); ic == nil {
+		r.Fatalf("C06.R6: engine InhumeContainer not found")
+	} else {
+		walkVisitsEveryShard(p, r6, ic, "shard.Shard).InhumeContainer")
+	}
+	r.Explain += " (R6) the engine's container removal walks all shards and returns only after the walk ended: objects of a removed container stay listable on every shard that was not told."
 	// ---------------- R4 the engine merges every shard's page
 	r4 := r.Rule("C06.R4", "StorageEngine.ListWithCursor merges every non-empty shard page: from the shard's listing call to the next shard the only ways around the merge are 'the shard failed' and 'its page is empty'; every shard gets the same start cursor", 2)
 	if el := p.Func("(*pkg/local_object_storage/engine.StorageEngine).ListWithCursor"); el == nil {
@@ -869,4 +877,42 @@ func searchStatusRule(p *core.Prog, r *core.Report, r1 *core.RuleH) {
 			return "n++", storeToFreeVar(in, "n")
 		}})
 	}
+}
+
+// walkVisitsEveryShard: the per-shard call is made in a loop and no return of fn is reachable from it without
+// passing the loop header again (i.e. the loop ends by exhaustion only).
+func walkVisitsEveryShard(p *core.Prog, h *core.RuleH, fn *ssa.Function, calleeSuffix string) {
+	name := core.FuncName(fn)
+	calls := core.CallSites([]*ssa.Function{fn}, func(s core.Site) bool { return strings.HasSuffix(s.Name, calleeSuffix) && s.Fn == fn })
+	if len(calls) != 1 {
+		h.Bad(name+"#walk", p.Pos(fn.Pos()), fmt.Sprintf("expected one per-shard call, found %d", len(calls)))
+		return
+	}
+	cb := calls[0].Call.(ssa.Instruction).Block()
+	var hdr *ssa.BasicBlock
+	for _, b := range fn.Blocks {
+		if !b.Dominates(cb) {
+			continue
+		}
+		for _, pr := range b.Preds {
+			if b.Dominates(pr) && (hdr == nil || hdr.Dominates(b)) {
+				hdr = b
+			}
+		}
+	}
+	if hdr == nil || !inCycle(cb) {
+		h.Bad(name+"#walk", p.InstrPos(calls[0].Call), "the per-shard call is not made in a loop over the shards")
+		return
+	}
+	early := ""
+	for _, b := range fn.Blocks {
+		if _, ok := b.Instrs[len(b.Instrs)-1].(*ssa.Return); !ok {
+			continue
+		}
+		if b == cb || reachesAvoiding(cb, b, map[*ssa.BasicBlock]bool{hdr: true}, nil) {
+			early = p.InstrPos(b.Instrs[len(b.Instrs)-1])
+		}
+	}
+	h.Check(early == "", name+"#walk-ends-by-exhaustion", p.InstrPos(calls[0].Call), "every shard is visited",
+		"the walk over the shards is left from inside ("+early+"): shards that come later in the (random) order are never visited")
 }
